@@ -115,6 +115,7 @@ class C33:
     from vf import mj
     lib, ck = self.lib, self.ck
     done = []
+    ck.journal(dict(stage='routes', replay=replay))
     s = make_spec()
     s_copy_before = lib.mj_copySpec(s)
     specs = [s, s_copy_before]
@@ -177,6 +178,7 @@ class C33:
     from vf import mj
     lib, ck = self.lib, self.ck
     E = lib.enums
+    ck.journal(dict(stage='recompile', seed=seed, replay=replay))
     s = make_spec()
     try:
       try:
@@ -324,7 +326,8 @@ def main(ck):
              'program, or a corpus file) through all determinism/copy routes, or through the mj_recompile scenario; '
              'non-trivial = a copy route other than "compile twice" ran (always) - cases with >=2 assets are labelled '
              'assets>=2(threadpool); distinct by recipe')
-  ck.assumptions = ['mjModel.signature is excluded only for the usethread on/off comparison (it hashes the spec, which '
+  ck.assumptions = ['generated documents do not use <compiler fusestatic>: fusing leaves dangling pointers in the spec of this tree (heap-use-after-free in mjCCamera::Compile, std::length_error/SEGV on a second compile or mj_recompile; reported, replays/C33) so outcomes are not reproducible; corpus files that use it are still run',
+                    'mjModel.signature is excluded only for the usethread on/off comparison (it hashes the spec, which '
                     'contains the flag)', 'thread schedules of the asset pool are those the OS produces (no controlled '
                     'scheduler for the compiler pool); TSan run not included']
 
@@ -335,10 +338,10 @@ def main(ck):
     m1 = c.routes(lambda: lib.parse_xml(gm.xml), dict(xml=gm.xml), labels)
     if m1 is not None and seed % 2 == 0:
       c.recompile(lambda: lib.parse_xml(gm.xml), seed, dict(xml=gm.xml), labels)
-  ck.run_hypothesis(xml_test, st.tuples(gen_io.rich_models(max_bodies=4, memory='4M', min_meshes=0, min_textures=0, muscles=True),
+  ck.run_hypothesis(xml_test, st.tuples(gen_io.rich_models(max_bodies=4, memory='4M', min_meshes=0, min_textures=0, muscles=True, fusestatic=False),
                                         mg.state_seed()), ck.budget(40, 2500), name='xml')
   ck.run_hypothesis(xml_test, st.tuples(gen_io.rich_models(max_bodies=3, memory='4M', min_meshes=6, min_textures=4,
-                                                           frames=False, replicate=False, muscles=True), mg.state_seed()),
+                                                           frames=False, replicate=False, muscles=True, fusestatic=False), mg.state_seed()),
                     ck.budget(20, 1500), name='xml-many-assets')
 
   def api_test(case):
